@@ -188,6 +188,41 @@ func run(w *ev.W) {
 			}
 			vals = append(vals, v)
 		})
+		// maps, sets and lists whose keys/elements are themselves containers or structs
+		// (the "unhashable" comparison paths): every container of size <=2 over 2 keys x 2 values
+		{
+			i32 := func(x int64) tbin.Value { return tbin.Value{T: tbin.I32, I: x} }
+			keys := map[string][]tbin.Value{
+				"struct": {{T: tbin.Struct, Fields: []tbin.Field{{ID: 1, V: i32(1)}}}, {T: tbin.Struct, Fields: []tbin.Field{{ID: 1, V: i32(2)}}}},
+				"list":   {{T: tbin.List, VT: tbin.I32, Items: []tbin.Value{i32(1)}}, {T: tbin.List, VT: tbin.I32, Items: []tbin.Value{i32(1), i32(2)}}},
+				"set":    {{T: tbin.Set, VT: tbin.I32, Items: []tbin.Value{i32(1), i32(2)}}, {T: tbin.Set, VT: tbin.I32, Items: []tbin.Value{i32(3)}}},
+				"map":    {{T: tbin.Map, KT: tbin.I32, VT: tbin.I32, Items: []tbin.Value{i32(1), i32(1)}}, {T: tbin.Map, KT: tbin.I32, VT: tbin.I32, Items: []tbin.Value{i32(1), i32(2)}}},
+			}
+			for _, kind := range []string{"struct", "list", "set", "map"} {
+				ks := keys[kind]
+				vs := []tbin.Value{i32(10), i32(20)}
+				kt := ks[0].T
+				var fam []tbin.Value
+				fam = append(fam, tbin.Value{T: tbin.Map, KT: kt, VT: tbin.I32})
+				for _, k := range ks {
+					for _, v := range vs {
+						fam = append(fam, tbin.Value{T: tbin.Map, KT: kt, VT: tbin.I32, Items: []tbin.Value{k, v}})
+					}
+				}
+				for _, va := range vs {
+					for _, vb := range vs {
+						fam = append(fam, tbin.Value{T: tbin.Map, KT: kt, VT: tbin.I32, Items: []tbin.Value{ks[0], va, ks[1], vb}})
+						fam = append(fam, tbin.Value{T: tbin.Map, KT: kt, VT: tbin.I32, Items: []tbin.Value{ks[1], vb, ks[0], va}})
+					}
+				}
+				// sets and lists of such elements
+				for _, ct := range []tbin.Type{tbin.Set, tbin.List} {
+					fam = append(fam, tbin.Value{T: ct, VT: kt}, tbin.Value{T: ct, VT: kt, Items: []tbin.Value{ks[0]}}, tbin.Value{T: ct, VT: kt, Items: []tbin.Value{ks[1]}},
+						tbin.Value{T: ct, VT: kt, Items: []tbin.Value{ks[0], ks[1]}}, tbin.Value{T: ct, VT: kt, Items: []tbin.Value{ks[1], ks[0]}})
+				}
+				vals = append(fam, vals...)
+			}
+		}
 		if len(vals) > 1500 {
 			// all pairs of the first 1500 values in enumeration order (smallest first)
 			vals = vals[:1500]
